@@ -1212,6 +1212,22 @@ impl Regex {
     }
 }
 
+/// Hooks for the external verification harness (`--cfg fancy_regex_verif`). Not part of the API.
+#[cfg(fancy_regex_verif)]
+impl Regex {
+    /// `find_from_pos` with explicit VM option flags (bit 1 = an empty match was skipped)
+    #[doc(hidden)]
+    pub fn verif_find_with_flags(
+        &self,
+        text: &str,
+        pos: usize,
+        option_flags: u32,
+    ) -> Result<Option<(usize, usize)>> {
+        self.find_from_pos_with_option_flags(text, pos, option_flags)
+            .map(|m| m.map(|m| (m.start, m.end)))
+    }
+}
+
 impl TryFrom<&str> for Regex {
     type Error = Error;
 
